@@ -148,6 +148,8 @@ class C04:
                 ins.append(("escape", b"S'" + (o + tail).encode() + b"'\n."))
         for b, _ in P.boundary_programs(rng, sample=ctx.scale(40, 400)):
             ins.append(("boundary", b))
+        for b in P.well_known_call_programs():
+            ins.append(("well-known-call", b))
         corpus = corpus_files(ctx.scale(500, None))
         for b in corpus:
             ins.append(("corpus", b))
@@ -475,7 +477,7 @@ class C16:
 
     def run(self, ctx):
         rng = ctx.rng
-        ins = own_corpus("C16") + self.mark_programs() + corpus_files(ctx.scale(400, None))
+        ins = own_corpus("C16") + self.mark_programs() + corpus_files(ctx.scale(400, None)) + P.well_known_call_programs()
         base = corpus_files(300) or [b"K\x01."]
         for _ in range(ctx.scale(800, 20000)):
             ins.append(P.mutate(rng, rng.choice(base)))
@@ -534,7 +536,7 @@ def enc_pickles(ctx, n, canonical=True):
 class C11:
     prop = "C11"
     lean_module = "Ogorek.Props.C11Reloc"
-    theorems = ["Ogorek.C11_relocate", "Ogorek.C11_stream_any", "Ogorek.reloc_step", "Ogorek.resolveV_reloc", "Ogorek.C11_K7_witness",
+    theorems = ["Ogorek.C11_relocate", "Ogorek.C11_relocate_err", "Ogorek.C11_stream_any", "Ogorek.reloc_step", "Ogorek.reloc_step_err", "Ogorek.resolveV_reloc", "Ogorek.C11_K7_witness",
                 "Ogorek.C11_reset", "Ogorek.C11_consumes", "Ogorek.C11_stream", "Ogorek.C11_then_eof", "Ogorek.C11_encoded_stream"]
     trusted_base = TB_COMMON
     level_text = ("Lean theorems: a Decode call depends on earlier calls only through memo/heap/id supply/hook log, never through "
@@ -546,7 +548,9 @@ class C11:
                   "value up to a renaming of container references and *big.Int identities, building the same containers moved and "
                   "touching nothing older (proved by a simulation of the two runs through every instruction, reloc_step, over "
                   "invariance lemmas for marks, hashing, both equalities, both kinds of assignment and the interpreted calls); the "
-                  "unfolded results are the same (resolveV_reloc); C11_stream_any lifts it to streams. For streams written by the "
+                  "unfolded results are the same (resolveV_reloc); C11_stream_any lifts it to streams; and the error too: a pickle without MEMOIZE "
+                  "and without memo fetches that FAILS alone fails with the same error after the same bytes anywhere (C11_relocate_err, "
+                  "reloc_step_err - a fetch is excluded there because a key missing alone may exist after other pickles). For streams written by the "
                   "encoder C11_encoded_stream additionally gives the value each call returns. MEMOIZE is excluded for a reason: its key "
                   "is the next free index of the Decoder's memo, which earlier pickles advance - C11_K7_witness proves that a "
                   "self-contained pickle using MEMOIZE + BINGET returns another value after an earlier pickle than alone: known "
@@ -614,13 +618,27 @@ class C11:
         for _ in range(ctx.scale(120, 1500)):
             streams.append([rng.choice(cpy) for _ in range(rng.randint(2, 4))])
         streams += [[cpy[3], cpy[19]], [cpy[0], cpy[16]], [cpy[2], cpy[18], cpy[34]]]
+        # payload-carrying opcodes of every kind and size, several per stream: the decoder's reusable payload buffer and the 4096-byte
+        # read buffer are crossed at ever different offsets
+        import struct as _struct
+
+        def payload_pickle():
+            n = rng.choice([0, 1, 5, 255, 256, 300, 700, 1500, 2500, 3000, 4090, 4100, 6000])
+            data = bytes(rng.choice(b"abcxyz") for _ in range(n))
+            forms = [b"T" + _struct.pack("<I", n) + data, b"B" + _struct.pack("<I", n) + data, b"X" + _struct.pack("<I", n) + data,
+                     b"\x96" + _struct.pack("<Q", n) + data, b"V" + data + b"\n", b"S'" + data + b"'\n"]
+            if n < 256:
+                forms += [b"U" + bytes([n]) + data, b"C" + bytes([n]) + data, b"\x8c" + bytes([n]) + data]
+            return rng.choice(forms) + b"."
+        for _ in range(ctx.scale(150, 2000)):
+            streams.append([payload_pickle() for _ in range(rng.randint(3, 9))])
         for ps in streams:
             cfg = rng.choice(CFGS)
-            lines.append(f"decs {cfg} - {hexs(b''.join(ps))}")
+            lines.append(f"decsp {cfg} - {hexs(b''.join(ps))}")
             meta.append((cfg, ps))
             for p in ps:
                 single.setdefault((cfg, p), None)
-        slines = [f"dec {cfg} - {hexs(p)}" for (cfg, p) in single]
+        slines = [f"decp {cfg} - {hexs(p)}" for (cfg, p) in single]
         go, lean = run_both(lines)
         sgo = C.run_sharded(C.run_go, slines)
         for key, a in zip(list(single), sgo):
@@ -741,13 +759,24 @@ class C14:
         # streams
         for _ in range(ctx.scale(60, 1000)):
             ins.append(b"".join(rng.choice(ins[10:]) for _ in range(rng.randint(2, 4))))
+        # pickles separated by bytes that are no part of them (newline-separated files, padding): what the byte after a STOP does
+        # must not depend on whether it arrived in the same Read
+        directed = []
+        smalls = [b"I5\n.", b"K\x07.", b"\x80\x02]q\x00.", b"Vab\n.", b"N."]
+        for sep in (b"\n", b"\r\n", b" ", b"\x00", b"N", b".", b"\n\n"):
+            for a in smalls:
+                for b2 in smalls[:3]:
+                    directed.append(a + sep + b2 + sep)
+                    directed.append(a + sep + b2)
+        ins += directed
+        force_all = set(directed)
         flat, sched_lines, meta = [], [], []
         for data in ins:
             data = data[:120000]
             cfg = rng.choice(CFGS)
             scheds = ["1*", "e1*", "0,0,3*", "e4096*", "4095,1*", "4096,1,4095*", "4097*", "e7*"]
             n = len(data)
-            if n <= 1024 and (ctx.thorough or rng.random() < 0.25):
+            if n <= 1024 and (ctx.thorough or data in force_all or rng.random() < 0.25):
                 scheds += [f"{k},{n}" for k in range(1, n)]
                 scheds += [f"e{k},{n}" for k in range(1, n, 3)]
             else:
@@ -950,6 +979,16 @@ class C17:
                     tail = f"{op} {k}" + (" I1" if op == "S" else "")
                     dl.append("dict " + (pre + " ; " if pre else "") + tail)
                     dm.append((n, op, k))
+        # an unhashable key that is element-wise EQUAL to a stored hashable key (a list / bytearray against a tuple of the same
+        # items), in dictionaries of 1..10 entries: the call must panic before it touches the table
+        twins = [("t( I1 I2 )", "l( I1 I2 )"), ("t( I1 I2 )", "A0102"), ("t( t( ) )", "t( l( ) )"), ("R( t( I1 ) )", "R( l( I1 ) )"),
+                 ("c( C6d.6e t( I1 ) )", "c( C6d.6e l( I1 ) )"), ("t( S61 t( I1 ) )", "t( S61 A01 )"), ("t( )", "l( )"), ("t( )", "A-")]
+        for good, bad in twins:
+            for extra in (0, 1, 3, 7, 9):
+                pre = " ; ".join([f"S {good} I5"] + [f"S I{i} I{i}" for i in range(extra)])
+                for op in ("G", "D", "S"):
+                    dl.append(f"dict {pre} ; {op} {bad}" + (" I6" if op == "S" else ""))
+                    dm.append((extra + 1, op, bad))
         # the zero value Dict{} (the documented nil dictionary: empty; Set with a hashable key is not allowed on it)
         for k in bad_keys:
             for op in ("G", "D", "S"):
@@ -1338,6 +1377,12 @@ class C19:
         payloads = [b"", b"a", b"abc", b"'", b'"', b"\\", b"\n", b"a\nb", b"\x00", b"\xff", b"\xc3\xa9", "€".encode(), b"\\x41",
                     b"\\u0041", b"'\"", b"x" * 255, b"y" * 256, b"z" * 300, b"\x80abc", b"\r\n\t", b"\x1a\x7f"]
         payloads += [bytes([b]) for b in range(256)]                       # every byte value on its own
+        # text of Latin-1 letters whose raw bytes (as UNICODE writes them) happen to be valid UTF-8 of something else
+        payloads += [t.encode() for t in ("\u00c3\u00a9", "na\u00c3\u00afve", "\u00e2\u0082\u00ac", "\u00c2\u00a0x", "\u00f0\u009f\u0098\u0080",
+                                          "\u00c3\u00a9\u00ff", "ab\u00c5\u0093")]
+        for _ in range(ctx.scale(40, 600)):
+            payloads.append("".join(chr(rng.choice([rng.randint(0x80, 0xff), rng.randint(0xc2, 0xf4), rng.randint(0x80, 0xbf), 0x41]))
+                                    for _ in range(rng.randint(1, 6))).encode())
         payloads += [b"p" * n for n in (4094, 4095, 4096, 4097, 8191, 8192, 8193, 9000, 12289, 20000)]   # text lines over 1, 2, 3+ bufio buffers
         payloads += [("\u20ac" * 3000).encode(), b"q" * 8190 + b"'\"\\\n" + b"r" * 5000]
         for _ in range(ctx.scale(250, 4000)):
